@@ -448,11 +448,24 @@ func (l *memoryBlockList) allocPage(size int, alignment uint, createInfo *Alloca
 		}
 
 		res, err = l.allocFromBlock(block, size, alignment, createInfo.Flags, createInfo.UserData, suballocationType, strategy, outAlloc)
-		if err != nil {
-			return res, err
-		} else if res == core1_0.VKSuccess {
+		if err == nil && res == core1_0.VKSuccess {
 			l.incrementallySortBlocks()
 			return res, nil
+		}
+
+		// Even the new block could not serve the request (alignment or granularity rounding, a failed
+		// mapping): do not keep a block around that was created for nothing
+		if block.metadata.IsEmpty() && len(l.blocks) > l.minBlockCount {
+			l.Remove(block)
+			destroyErr := block.Destroy()
+			if destroyErr != nil {
+				panic(fmt.Sprintf("unexpected failure when destroying a memory block that was just created: %+v", destroyErr))
+			}
+			blockPool.Put(block)
+		}
+
+		if err != nil {
+			return res, err
 		}
 	}
 
